@@ -8,6 +8,7 @@ CONSTANTS
   MaxPath = 2
   MaxHist = 2
   MaxSeq = 3
+INVARIANT KeysAreCaseSensitive
 INVARIANT ColourSwitchIsLocal
 INVARIANT GetterHistory
 INVARIANT HistoryIndependent
